@@ -124,6 +124,10 @@ pub fn check(case: &Case) -> Outcome {
     out
 }
 
+pub fn crafted_base(i: u64) -> StreamCase {
+    crafted(i).base
+}
+
 fn crafted(i: u64) -> Case {
     // 12 small streams covering all subframe kinds, mono/stereo, 1..=4 frames
     let classes: [u8; 6] = [0, 2, 5, 3, 10, 14];
